@@ -16,6 +16,12 @@
      OFinish k       the peer of connection k disconnects: its handler ends
      OExpire         the context of the blocked Shutdown expires
 
+   The listener's Close may return an error (field lis_err, a parameter of
+   the run: e.g. the application has closed the listener itself).  Close and
+   Shutdown remember the first such error, carry on - Close closes every
+   registered connection, Shutdown waits for the handlers - and return it at
+   the end (RListenerErr) in place of nil.
+
    Modelled as written: tempDelay is NOT reset by a successful Accept; the
    `select <-s.done` test comes before the Temporary() test; Shutdown waits
    for the handlers (s.wg), not for s.conns.
@@ -45,8 +51,9 @@ Inductive accept_res := AConn | ATemp | APerm.
 Inductive op :=
 | OAccept (r : accept_res) | ORegister (k : nat) | OClose | OShutdown | OFinish (k : nat) | OExpire.
 
-(* return values: nil, ErrServerClosed, ctx.Err(), the Accept error *)
-Inductive ret := RNil | RServerClosed | RCtxErr | RAcceptErr.
+(* return values: nil, ErrServerClosed, ctx.Err(), the Accept error, the
+   error the listener's Close returned *)
+Inductive ret := RNil | RServerClosed | RCtxErr | RAcceptErr | RListenerErr.
 
 (* spawned (handler not yet registered) / registered and served / closed by
    the server (Server.Close, or its own handler finding s.done closed) /
@@ -71,11 +78,21 @@ Record st := mkSt {
   delay : N;                  (* tempDelay, milliseconds *)
   sleeps : list N;            (* the sleeps Serve performed, in order *)
   conns : list cstate;        (* the accepted connections, in order *)
-  sd_pending : bool           (* a Shutdown call is blocked *)
+  sd_pending : bool;          (* a Shutdown call is blocked *)
+  lis_err : bool              (* the listener's Close returns an error (a fixed
+                                 parameter of a run: no operation changes it) *)
 }.
 
-(* Serve(l) has been called and sits in Accept *)
-Definition init : st := mkSt true None false false 0 [] [] false.
+(* Serve(l) has been called and sits in Accept; e: the listener's Close will
+   return an error *)
+Definition init_e (e : bool) : st := mkSt true None false false 0 [] [] false e.
+Definition init : st := init_e false.
+
+(* what the first Close / Shutdown returns when it is not cut short by the
+   context: "any error returned from closing the server's underlying
+   listener(s)" - the error is remembered, everything else is done as without
+   it (Close goes on to close the connections, Shutdown goes on to wait) *)
+Definition ok_ret (s : st) : ret := if lis_err s then RListenerErr else RNil.
 
 Definition next_delay (d : N) : N :=
   if d =? 0 then 5 else N.min (2 * d) 1000.
@@ -105,19 +122,19 @@ Definition step (s : st) (o : op) : st * obs :=
         match r with
         | AConn =>
             (mkSt true (serve_ret s) (done s) (lis_closed s) (delay s) (sleeps s)
-                  (conns s ++ [CSpawned]) (sd_pending s), BAccepted)
+                  (conns s ++ [CSpawned]) (sd_pending s) (lis_err s), BAccepted)
         | ATemp =>
             if done s then
               (mkSt false (Some RNil) (done s) (lis_closed s) (delay s) (sleeps s)
-                    (conns s) (sd_pending s), BServeRet RNil)
+                    (conns s) (sd_pending s) (lis_err s), BServeRet RNil)
             else
               let d := next_delay (delay s) in
               (mkSt true (serve_ret s) (done s) (lis_closed s) d (sleeps s ++ [d])
-                    (conns s) (sd_pending s), BDelay d)
+                    (conns s) (sd_pending s) (lis_err s), BDelay d)
         | APerm =>
             let r := if done s then RNil else RAcceptErr in
             (mkSt false (Some r) (done s) (lis_closed s) (delay s) (sleeps s)
-                  (conns s) (sd_pending s), BServeRet r)
+                  (conns s) (sd_pending s) (lis_err s), BServeRet r)
         end
       else (s, BSkip)
   | ORegister k =>
@@ -128,46 +145,46 @@ Definition step (s : st) (o : op) : st * obs :=
                unregistered and ungreeted, and returns (wg.Done) *)
             let cs := set_nth k CClosedByServer (conns s) in
             let s' := mkSt (serving s) (serve_ret s) (done s) (lis_closed s) (delay s)
-                           (sleeps s) cs (sd_pending s) in
+                           (sleeps s) cs (sd_pending s) (lis_err s) in
             if sd_pending s && (open_count s' =? 0)%nat then
               (mkSt (serving s) (serve_ret s) (done s) (lis_closed s) (delay s)
-                    (sleeps s) cs false, BShutdownRet RNil)
+                    (sleeps s) cs false (lis_err s), BShutdownRet (ok_ret s))
             else (s', BNone)
           else
             (mkSt (serving s) (serve_ret s) (done s) (lis_closed s) (delay s) (sleeps s)
-                  (set_nth k COpen (conns s)) (sd_pending s), BNone)
+                  (set_nth k COpen (conns s)) (sd_pending s) (lis_err s), BNone)
       | _ => (s, BSkip)
       end
   | OClose =>
       if done s then (s, BRet RServerClosed)
       else
         let '(sv, sr) := stop_serve s in
-        (mkSt sv sr true true (delay s) (sleeps s) (close_all (conns s)) (sd_pending s),
-         BRet RNil)
+        (mkSt sv sr true true (delay s) (sleeps s) (close_all (conns s)) (sd_pending s) (lis_err s),
+         BRet (ok_ret s))
   | OShutdown =>
       if done s then (s, BRet RServerClosed)
       else
         let '(sv, sr) := stop_serve s in
         if (open_count s =? 0)%nat then
-          (mkSt sv sr true true (delay s) (sleeps s) (conns s) false, BRet RNil)
+          (mkSt sv sr true true (delay s) (sleeps s) (conns s) false (lis_err s), BRet (ok_ret s))
         else
-          (mkSt sv sr true true (delay s) (sleeps s) (conns s) true, BPending)
+          (mkSt sv sr true true (delay s) (sleeps s) (conns s) true (lis_err s), BPending)
   | OFinish k =>
       match nth_error (conns s) k with
       | Some COpen =>
           let cs := set_nth k CFinished (conns s) in
           let s' := mkSt (serving s) (serve_ret s) (done s) (lis_closed s) (delay s)
-                         (sleeps s) cs (sd_pending s) in
+                         (sleeps s) cs (sd_pending s) (lis_err s) in
           if sd_pending s && (open_count s' =? 0)%nat then
             (mkSt (serving s) (serve_ret s) (done s) (lis_closed s) (delay s)
-                  (sleeps s) cs false, BShutdownRet RNil)
+                  (sleeps s) cs false (lis_err s), BShutdownRet (ok_ret s))
           else (s', BNone)
       | _ => (s, BSkip)
       end
   | OExpire =>
       if sd_pending s then
         (mkSt (serving s) (serve_ret s) (done s) (lis_closed s) (delay s) (sleeps s)
-              (conns s) false, BShutdownRet RCtxErr)
+              (conns s) false (lis_err s), BShutdownRet RCtxErr)
       else (s, BSkip)
   end.
 
